@@ -38,3 +38,88 @@ package informer
 //@   requires validShared(sri)
 //@   safety C13,C18
 //@   ensures [C18] validInformer(ri) && ri.sharedResourceInformer == sri && fresh(ri)
+
+//@ pred validSEH(seh) = seh != nil && seh.handlers != nil && seh.lister != nil
+
+//@ func sharedEventHandler.addHandler(seh, iw, handler, resyncPeriod) ()
+//@   requires validSEH(seh) && handler != nil
+//@   safety C13,C18
+//@   bind call eventHandler.resync: _
+//@   at eventHandler.start(eh, p) [C18]: resyncPeriod < seh.relistPeriod && p == resyncPeriod
+//@   ensures [C18] has(seh.handlers, iw) && len(seh.handlers[iw]) == old(len(seh.handlers[iw])) + 1
+//@   ensures [C18] seh.handlers[iw][len(seh.handlers[iw])-1] != nil && seh.handlers[iw][len(seh.handlers[iw])-1].ResourceEventHandler == handler && fresh(seh.handlers[iw][len(seh.handlers[iw])-1])
+//@   ensures [C18] forall j int :: 0 <= j && j < old(len(seh.handlers[iw])) ==> seh.handlers[iw][j] == old(seh.handlers[iw][j])
+//@   ensures [C18] forall k *informerWrapper :: k != iw ==> has(seh.handlers, k) == old(has(seh.handlers, k)) && seh.handlers[k] == old(seh.handlers[k])
+//@   ensures [C18] count(eventHandler.resync) == 1
+//@   ensures [C18] resyncPeriod >= seh.relistPeriod ==> !called(eventHandler.start)
+//@   ensures [C18,C17] !locked(seh)
+
+//@ func sharedEventHandler.removeHandlers(seh, iw) ()
+//@   requires validSEH(seh)
+//@   requires forall j int :: 0 <= j && j < len(seh.handlers[iw]) ==> seh.handlers[iw][j] != nil
+//@   safety C13,C18
+//@   noexit loop 1 [C18]
+//@   bind loop 1: idx, eh
+//@   at eventHandler.stop(h) [C18]: 0 <= idx && idx < len(old(seh.handlers[iw])) && h == old(seh.handlers[iw][idx])
+//@   ensures [C18] !has(seh.handlers, iw)
+//@   ensures [C18] forall k *informerWrapper :: k != iw ==> has(seh.handlers, k) == old(has(seh.handlers, k)) && seh.handlers[k] == old(seh.handlers[k])
+//@   ensures [C18,C17] !locked(seh)
+
+//@ func eventHandler.resync(eh) ()
+//@   requires eh != nil && eh.ResourceEventHandler != nil && validSEH(eh.sharedEventHandler)
+//@   safety C13,C18
+//@   noexit loop 1 [C18]
+//@   bind loop 1: idx, obj
+//@   bind call List: list, listErr
+//@   at OnUpdate(h, o, n) [C18]: listErr == nil && h == eh.ResourceEventHandler && o == n && typeis(o, *unstructured.Unstructured) && unbox(o, *unstructured.Unstructured) == list[idx] && 0 <= idx && idx < len(list)
+
+//@ func sharedEventHandler.OnAdd(seh, obj, isInInitialList) ()
+//@   requires validSEH(seh)
+//@   requires forall k *informerWrapper :: has(seh.handlers, k) ==> (forall j int :: 0 <= j && j < len(seh.handlers[k]) ==> seh.handlers[k][j] != nil && seh.handlers[k][j].ResourceEventHandler != nil)
+//@   safety C13,C18
+//@   noexit loop 1 [C18]
+//@   noexit loop 2 [C18]
+//@   bind loop 1: iwk, handlers
+//@   bind loop 2: j, handler
+//@   at OnAdd(h, o, init) [C18]: o == obj && init == isInInitialList && has(seh.handlers, iwk) && handlers == seh.handlers[iwk] && 0 <= j && j < len(handlers) && h == handlers[j].ResourceEventHandler
+//@   ensures [C18,C17] !locked(seh)
+
+//@ func sharedEventHandler.OnUpdate(seh, oldObj, newObj) ()
+//@   requires validSEH(seh)
+//@   requires forall k *informerWrapper :: has(seh.handlers, k) ==> (forall j int :: 0 <= j && j < len(seh.handlers[k]) ==> seh.handlers[k][j] != nil && seh.handlers[k][j].ResourceEventHandler != nil)
+//@   safety C13,C18
+//@   noexit loop 1 [C18]
+//@   noexit loop 2 [C18]
+//@   bind loop 1: iwk, handlers
+//@   bind loop 2: j, handler
+//@   at OnUpdate(h, o, n) [C18]: o == oldObj && n == newObj && has(seh.handlers, iwk) && handlers == seh.handlers[iwk] && 0 <= j && j < len(handlers) && h == handlers[j].ResourceEventHandler
+//@   ensures [C18,C17] !locked(seh)
+
+//@ func sharedEventHandler.OnDelete(seh, obj) ()
+//@   requires validSEH(seh)
+//@   requires forall k *informerWrapper :: has(seh.handlers, k) ==> (forall j int :: 0 <= j && j < len(seh.handlers[k]) ==> seh.handlers[k][j] != nil && seh.handlers[k][j].ResourceEventHandler != nil)
+//@   safety C13,C18
+//@   noexit loop 1 [C18]
+//@   noexit loop 2 [C18]
+//@   bind loop 1: iwk, handlers
+//@   bind loop 2: j, handler
+//@   at OnDelete(h, o) [C18]: o == obj && has(seh.handlers, iwk) && handlers == seh.handlers[iwk] && 0 <= j && j < len(handlers) && h == handlers[j].ResourceEventHandler
+//@   ensures [C18,C17] !locked(seh)
+
+//@ func informerWrapper.RemoveEventHandlers(iw) ()
+//@   requires iw != nil && iw.sharedResourceInformer != nil && validSEH(iw.sharedResourceInformer.eventHandlers)
+//@   requires forall j int :: 0 <= j && j < len(iw.sharedResourceInformer.eventHandlers.handlers[iw]) ==> iw.sharedResourceInformer.eventHandlers.handlers[iw][j] != nil
+//@   safety C13,C18
+//@   at sharedEventHandler.removeHandlers(s, w) [C18]: w == iw && s == iw.sharedResourceInformer.eventHandlers
+
+//@ func informerWrapper.AddEventHandler(iw, handler) (reg, err)
+//@   requires iw != nil && iw.sharedResourceInformer != nil && validSEH(iw.sharedResourceInformer.eventHandlers) && handler != nil
+//@   safety C13,C18
+//@   at sharedEventHandler.addHandler(s, w, h, p) [C18]: w == iw && h == handler && s == iw.sharedResourceInformer.eventHandlers && p == iw.sharedResourceInformer.defaultResyncPeriod
+//@   ensures [C18] err == nil
+
+//@ func ResourceInformer.Close(ri) ()
+//@   requires validInformer(ri)
+//@   safety C13,C18
+//@   at close(x) [C18]: true
+//@   ensures [C18] count(close) == 1
